@@ -29,8 +29,8 @@
 (*                                                                         *)
 (* Alphabets (RECOV_TIER = quick | thorough; Depth = 6 | 8):               *)
 (*   q, d, t, x   as in Recovery.tla (q up to MaxQ = 6 queued; x only      *)
-(*                inside an episode; t only while transmitted data is      *)
-(*                outstanding; d not in RTO mode)                          *)
+(*                inside an episode, also in RTO mode; t only while        *)
+(*                transmitted data is outstanding; d not in RTO mode)      *)
 (*   a            ack_nr in {una-3 (stale), una-1 (duplicate), una, una+1, *)
 (*                last-1, last (everything transmitted), point-1, point},  *)
 (*                never above the highest sequence number transmitted;     *)
@@ -43,7 +43,7 @@
 (* These full alphabets (level 0) are offered for the first FullDepth = 1  *)
 (* | 2 calls.  Later calls draw from smaller ones (Lvl, Pick4):            *)
 (*   level 1 (up to call MidDepth = 3 | 5): ack_nr {una-3, una-1, una,     *)
-(*            last, point} x {no SACK, bitmaps 0, 1, 7, 11}; ST_DATA and   *)
+(*            last, point} x {no SACK, bitmaps (0,) 1, 7, 11}; ST_DATA and *)
 (*            window update for the duplicate; q, d, t, x                  *)
 (*   level 2: ack_nr {una-1, una, point} x {no SACK, bitmap 7}, the        *)
 (*            duplicate with bitmap 1; d, t, x                             *)
@@ -72,11 +72,10 @@ Pick4(a, b, c, d) == IF Lvl = 0 THEN a ELSE IF Lvl = 1 THEN b ELSE IF Lvl = 2 TH
 Pick(a, b, c) == Pick4(a, b, c, c)
 
 ModeN(m) == CASE m = "open" -> 0 [] m = "rec" -> 1 [] m = "rto" -> 2
-OrgN(x)  == CASE x = "" -> 0 [] x = "open" -> 1 [] x = "rec" -> 2 [] x = "rto" -> 3
 BlN(x)   == CASE x = "" -> 0 [] x = "exit" -> 1 [] x = "idle" -> 2
 QBits(q) == SumSeq([i \in 1..Len(q) |-> IF q[i] THEN 2 ^ (i - 1) ELSE 0])
-Key(s, d) == <<d, s.una, Len(s.q), QBits(s.q), s.last, s.high, B(s.blocked), ModeN(s.mode), s.point, OrgN(s.org),
-               B(s.rtxd), B(s.sack), s.pa, s.pw, s.cnt, s.sd, s.ld, s.rep, BlN(s.bl), B(s.tnt)>>
+Key(s, d) == <<d, s.una, Len(s.q), QBits(s.q), s.last, s.high, B(s.blocked), ModeN(s.mode), s.point, s.orp,
+               B(s.rtxd), B(s.sack), s.pa, s.pw, s.cnt, s.sd, s.ld, s.rep, BlN(s.bl)>>
 
 ---------------------------------------------------------------------------
 (* The roots: fixed call histories.                                        *)
@@ -115,7 +114,7 @@ AckRel(s) ==
         c == Pick4({-3, -1, 0, 1, L - 1, L, P - 1, P}, {-3, -1, 0, L, P}, {-1, 0, P}, {-1, P})
     IN  { k \in c : k >= -3 /\ k <= H }
 AckNrs(s) == { Add(s.una, k + M, M) : k \in AckRel(s) }
-LowSets == Pick(0..15, {0, 1, 7, 11}, {7})
+LowSets == Pick(0..15, IF Thorough THEN {0, 1, 7, 11} ELSE {1, 7, 11}, {7})
 Sacks   == { <<0, << >> >> } \cup { <<1, <<b>> >> : b \in LowSets }
 AckOps(s) ==
     { <<"a", a, k[1], k[2], ST_STATE, Wnd>> : a \in AckNrs(s), k \in Sacks }
